@@ -77,6 +77,21 @@ class Boom(Exception):
     pass
 
 
+class BoomBase(BaseException):
+    """an on_timeout / handler may also leave with something that is not an `Exception`"""
+
+
+def raise_kind(op):
+    """["raise"] = an ordinary Exception, ["raise", "cancelled"] = asyncio.CancelledError (e.g. from reading the result of
+    a cancelled future), ["raise", "base"] = another BaseException"""
+    kind = op[1] if len(op) > 1 else "exception"
+    if kind == "cancelled":
+        return kind, asyncio.CancelledError()
+    if kind == "base":
+        return kind, BoomBase()
+    return "exception", Boom()
+
+
 class TimeoutMark(Exception):
     pass
 
@@ -340,9 +355,13 @@ class Run:
                                     self.fail("RequestCache._on_timeout:future-wrong-value",
                                               f"managed future {i} of request {k} completed as {ch} on timeout")
                     self.lazy.append((t, "fa", f"aborted {self.idx[k]}", post_abort))
+                    rk, exc_obj = raise_kind(op)
+                    self.stats["on_timeout_raised:" + rk] = self.stats.get("on_timeout_raised:" + rk, 0) + 1
                     if tk is not None:
-                        tk._c10_raised = True
-                    raise Boom
+                        # a body leaving with CancelledError ends the Task cancelled: AsyncTask.lean has no such event,
+                        # so that Task is left out of the `atask` comparison
+                        tk._c10_raised = "cancelled" if rk == "cancelled" else True
+                    raise exc_obj
                 self.do_op(op)
         finally:
             self.in_fire = None
@@ -592,14 +611,16 @@ class Run:
                     for sub in body:
                         self.stats["handler_ops"] = self.stats.get("handler_ops", 0) + 1
                         if sub[0] == "raise":
+                            rk, exc_obj = raise_kind(sub)
                             self.stats["handler_raised"] = self.stats.get("handler_raised", 0) + 1
-                            raise Boom
+                            self.stats["handler_raised:" + rk] = self.stats.get("handler_raised:" + rk, 0) + 1
+                            raise exc_obj
                         self.do_op(sub)
                 finally:
                     self.in_handler -= 1
             try:
                 self.retrieve(p, n, handler, with_data=form in ("wd", "wd2"), decoy=form in ("2p", "wd2"))
-            except Boom:
+            except (Boom, BoomBase, asyncio.CancelledError):
                 pass
             if not entered:
                 account(None)
@@ -845,7 +866,7 @@ class Run:
 
         def handler(_loop, context):
             e = context.get("exception")
-            if isinstance(e, (Boom, TimeoutMark)):
+            if isinstance(e, (Boom, BoomBase, TimeoutMark, asyncio.CancelledError)):
                 return
             self.loop_errors.append(f"{context.get('message')}: {type(e).__name__ if e else ''} {e}")
         loop.set_exception_handler(handler)
@@ -880,6 +901,8 @@ class Run:
         for tk in self.sd_tasks:
             await tk
         for tk, delayed, phase in self.atask_obs:
+            if getattr(tk, "_c10_raised", False) == "cancelled":
+                continue
             end = "cancelled" if tk.cancelled() else ("finished" if tk.done() else "pending")
             self.log.append((self.now(), f"atask {1 if delayed else 0} {phase}"
                              + (" raise" if phase == "running" and getattr(tk, "_c10_raised", False) else ""),
@@ -928,8 +951,8 @@ def gen_random(rng, size: int) -> dict:
         if depth < 2 and rng.random() < 0.45:
             for _ in range(rng.choice([1, 1, 2, 3])):
                 body.append(body_op(k, depth))
-            if rng.random() < 0.08:
-                body.append(["raise"])
+            if rng.random() < 0.14:
+                body.append(rng.choice([["raise"], ["raise"], ["raise", "cancelled"], ["raise", "base"]]))
         if rng.random() < 0.12:
             used = [x[1] for x in idents if x[0] == p] or [n]
             cands = [rng.choice(used) for _ in range(rng.randrange(0, 4))] + [rng.choice(used + [7, 9])]
@@ -989,7 +1012,7 @@ def gen_random(rng, size: int) -> dict:
         if rng.random() < 0.08:
             ops.append(rng.choice([["clear"], ["shutdown"], ["tmshutdown"]]))
         if rng.random() < 0.3:
-            ops.append(["raise"])                               # the handler rejects the response / has a fault
+            ops.append(rng.choice([["raise"], ["raise"], ["raise", "cancelled"], ["raise", "base"]]))   # handler fault
         return ops
 
     for k in range(nspecs):
